@@ -41,13 +41,34 @@ type outcome struct {
 	HaveTrack bool  `json:"have_track,omitempty"`
 	OpenAt    []int `json:"open_at_ret,omitempty"`    // accepted sockets on which the proxy had not called Close (order of acceptance)
 	BusyAt    []int `json:"closing_at_ret,omitempty"` // … on which its Close had begun and not returned
+	// OpenAt / BusyAt are the sockets Run's success speaks about (the proxy had used them — hence registered them — when the
+	// run context was cancelled); the others that were not closed at the return ("accepted in the meantime", held.go)
+	LateIDs []int     `json:"late_ids,omitempty"`
+	Late    []lateObs `json:"late,omitempty"`
+	// the harness could not carry out the case's script (its own placement failed, a connection that is not the case's
+	// reached the proxy's listener): nothing of the case is judged
+	Inconclusive string `json:"inconclusive,omitempty"`
+	StrayOrigin  int    `json:"stray_origin,omitempty"` // requests that are not this case's and reached its origin (refused, not entered into the history)
+	StrayConns   int    `json:"stray_conns,omitempty"`  // connections the proxy's listener accepted that none of the case's clients made
+	Held         *heldObs `json:"held,omitempty"`       // the "accept held" placement: what was observed of it
+	// Host "group" (group.go)
+	GroupRetAt time.Duration `json:"group_ret_at,omitempty"`
 	shutCalls int
+	retWall   time.Time
+}
+
+// heldObs: the connection whose Accept the listener held.
+type heldObs struct {
+	Script  int           `json:"script"`
+	ID      int           `json:"id"`       // order of acceptance
+	HeldFor time.Duration `json:"held_for"` // how long Accept kept it
+	Read    bool          `json:"read,omitempty"` // the proxy called Read on it (it must not: the connection reached its handler after closing was known)
 }
 
 // runCase executes one case against the real code and returns what was observed.
 func runCase(c *Case) (*outcome, error) {
 	cr := &caseRun{c: c, log: newLog(), nonce: fmt.Sprintf("%x", time.Now().UnixNano()&0xffffffffff^int64(os.Getpid())<<20), trigger: make(chan struct{}), known: make(chan struct{}),
-		listenerClosed: make(chan struct{}), finished: make(chan struct{})}
+		listenerClosed: make(chan struct{}), finished: make(chan struct{}), holdGo: make(chan struct{})}
 	for k := range c.Conns {
 		cr.conns = append(cr.conns, newConnRun(cr, k))
 	}
@@ -82,6 +103,22 @@ func runCase(c *Case) (*outcome, error) {
 				cr.note("conn %d did not reach its phase (%s) within 10s", cn.k, cn.sc.Phase)
 			}
 		}
+	}
+	if hk := c.heldIndex(); hk >= 0 && cr.tracker != nil && cr.tracker.hold != nil {
+		// the "accept held" placement (held.go): every other script is where it should be; now the held connection is
+		// made, and the shutdown is initiated once the listener's Accept has it in hand
+		cr.tracker.hold.arm()
+		close(cr.holdGo)
+		if !waitOr(cr.tracker.hold.holding, 6*time.Second) {
+			out.Inconclusive = "accept-held-placement-not-made"
+		}
+	} else {
+		close(cr.holdGo)
+	}
+	var strayDone chan struct{}
+	if c.Stray {
+		strayDone = make(chan struct{})
+		go func() { defer close(strayDone); cr.strayClient() }()
 	}
 	close(cr.trigger)
 	time.Sleep(time.Duration(c.DelayUs) * time.Microsecond)
@@ -118,10 +155,15 @@ func runCase(c *Case) (*outcome, error) {
 		closeListenerB()
 		cr.runCalls(out)
 	case c.Kind == "a":
+		if cr.groupUp != nil {
+			// hosted in a runctx.Group: its members run, so RunContext has registered for its signals
+			if !waitOr(cr.groupUp, 5*time.Second) {
+				out.Inconclusive = "group-not-started"
+			}
+		}
 		cr.dialMu.Lock()
 		cr.begun = true
-		cr.log.Add("X", 0)
-		cr.hp.Cancel()
+		cr.beginA()
 		cr.dialMu.Unlock()
 		if steps := c.deliveries(); len(steps) > 0 {
 			// signals to this process while the proxy drains (G:<number> is logged before the first delivery of each)
@@ -171,12 +213,20 @@ func runCase(c *Case) (*outcome, error) {
 		out.Result = "calls"
 	case c.Kind == "a":
 		select {
-		case e := <-cr.hp.Done():
+		case e := <-cr.runRet():
 			if cr.tracker != nil {
 				out.OpenAt, out.BusyAt, _ = cr.tracker.state()
 				out.HaveTrack = true
 			}
-			cr.log.Add("XR", 0)
+			xr := cr.logRunRet()
+			if cr.tracker != nil {
+				// the sockets the success speaks about: used by the proxy (hence registered) when the run context was cancelled
+				var l1, l2 []int
+				out.OpenAt, l1 = cr.tracker.servedBefore(out.OpenAt, cr.begunAt)
+				out.BusyAt, l2 = cr.tracker.servedBefore(out.BusyAt, cr.begunAt)
+				out.LateIDs = append(l1, l2...)
+				out.retWall = cr.log.t0.Add(xr.T)
+			}
 			close(runDone)
 			out.Result = fmt.Sprintf("run:%v", e)
 			if !errors.Is(e, context.Canceled) {
@@ -193,6 +243,7 @@ func runCase(c *Case) (*outcome, error) {
 		}
 		cr.setKnown()
 		cr.setListenerClosed()
+		cr.awaitGroup(out)
 	case c.Op == "close":
 		out.Result = "close-only"
 	default:
@@ -273,6 +324,10 @@ func runCase(c *Case) (*outcome, error) {
 	if c.Kind == "b" {
 		// every connection is gone now: the count of open connections must be back to zero, i.e. a
 		// further Shutdown finds nothing to wait for
+		// (a connection that Accept returned and whose handler has not had connsMu yet — the calls above may have followed each
+		// other within microseconds — closes its socket as soon as it gets there: the clients' being gone does not mean that the
+		// proxy's side is; what stays open beyond that is the last Shutdown's to report)
+		cr.tracker.waitClosed(lateSlack + c.maxCloseLatency())
 		var sc *Event
 		if len(c.Calls) > 0 {
 			// … entered into the history like every other call
@@ -300,10 +355,50 @@ func runCase(c *Case) (*outcome, error) {
 		}
 		cancel2()
 	}
+	if strayDone != nil {
+		waitOr(strayDone, 5*time.Second)
+	}
+	if cr.tracker != nil {
+		// what became of the sockets that were open at a return and that the call did not speak about (held.go)
+		if len(out.LateIDs) > 0 {
+			for end := time.Now().Add(lateSlack + 2*time.Second); time.Now().Before(end); {
+				if open, busy, _ := cr.tracker.state(); !anyOf(out.LateIDs, open) && !anyOf(out.LateIDs, busy) {
+					break
+				}
+				time.Sleep(10 * time.Millisecond)
+			}
+			out.Late = cr.lateOf(out.LateIDs, out.retWall, nil)
+		}
+		for _, o := range out.Calls {
+			if len(o.LateIDs) > 0 {
+				o.Late = cr.lateOf(o.LateIDs, cr.log.t0.Add(o.RetAt), out.Calls)
+			}
+		}
+		if h := cr.tracker.hold; h != nil {
+			if id, timedOut := h.heldID(); id >= 0 {
+				h.mu.Lock()
+				out.Held = &heldObs{Script: c.heldIndex(), ID: id, HeldFor: h.heldFor}
+				h.mu.Unlock()
+				cr.tracker.mu.Lock()
+				_, out.Held.Read = cr.tracker.readAt[id]
+				cr.tracker.mu.Unlock()
+				if timedOut && out.Inconclusive == "" {
+					out.Inconclusive = "accept-held-closing-not-known-in-time"
+				}
+			}
+		}
+	}
+	out.StrayOrigin = int(cr.strayOrigin.Load())
+	if n := cr.strayConns(); n > 0 {
+		out.StrayConns = n
+		if out.Inconclusive == "" {
+			out.Inconclusive = "foreign-connection-on-the-proxy-listener"
+		}
+	}
 	evs := cr.log.Snapshot()
 	callOp := "SC"
 	if c.Kind == "a" {
-		callOp = "X"
+		callOp = c.beginOp()
 	}
 	switch {
 	case len(c.Calls) > 0:
@@ -326,6 +421,10 @@ func runCase(c *Case) (*outcome, error) {
 		// configuration marker: the SET ShutdownSignals (the defaults, SIGUSR1 in the family runend, the case's own —
 		// possibly empty — set in the signal matrix)
 		evs = append([]*Event{{Op: "SG", R: joinInts(cr.sigSet)}}, evs...)
+		if c.Host == "group" {
+			// … and how the proxy is hosted: a runctx.Group with that many companions, NotifySignals = that set
+			evs = append([]*Event{{Op: "GC", K: len(c.MemberMs), R: joinInts(cr.sigSet)}}, evs...)
+		}
 	}
 	out.History = evs
 	if e := find(evs, callOp); e != nil {
@@ -336,7 +435,7 @@ func runCase(c *Case) (*outcome, error) {
 	} else if e := find(evs, "XR"); e != nil {
 		out.RetAt = e.T
 	}
-	if e := firstConfigured(evs, cr.sigSet); e != nil && c.Kind == "a" {
+	if e := firstConfigured(evs, cr.sigSet, c.beginOp() == "G"); e != nil && c.Kind == "a" {
 		out.SignalAt = e.T
 	}
 	out.Foreign = int(cr.foreign.Load())
@@ -344,6 +443,17 @@ func runCase(c *Case) (*outcome, error) {
 	out.Notes = append(out.Notes, cr.notes...)
 	cr.notesMu.Unlock()
 	return out, nil
+}
+
+func anyOf(ids, in []int) bool {
+	for _, a := range ids {
+		for _, b := range in {
+			if a == b {
+				return true
+			}
+		}
+	}
+	return false
 }
 
 // receiving: bytes arrived on the connection during the last 700 ms.
@@ -417,6 +527,13 @@ func evaluate(ctx *core.Ctx, c *Case, out *outcome) {
 		ctx.SpecFail("the proxy's count of open connections returns to zero", "", doc, h,
 			"after Close and after every client socket was closed, a further Shutdown(2.5s) returned: "+out.Final)
 	}
+	if out.Held != nil {
+		ctx.Count("accept-held/" + c.Kind + "/" + c.Family)
+		if out.Held.Read {
+			ctx.SpecFail("connections accepted in the meantime are closed without service", "", doc, h,
+				fmt.Sprintf("the proxy READ from socket %d (script %d), which the listener's Accept returned only once closing was known (held for %v)", out.Held.ID, out.Held.Script, out.Held.HeldFor))
+		}
+	}
 	if len(out.Unclosed) > 0 {
 		ctx.SpecFail("Shutdown reports success only once every connection that was being served has been closed", "", doc, h,
 			fmt.Sprintf("Shutdown returned nil; connections %v were not closed 2s later (before Close)", out.Unclosed))
@@ -428,6 +545,16 @@ func evaluate(ctx *core.Ctx, c *Case, out *outcome) {
 	if c.Family == "runend" && out.HaveRet {
 		ctx.Count("runend/" + c.End + "/" + strings.SplitN(out.Result, ":", 2)[0])
 		ctx.Count("runend/signals/a/" + c.sigLabel() + "/ended-by-" + c.End)
+		if c.Host == "group" {
+			begin := "cancellation"
+			if c.Begin == "signal" {
+				begin = "one-signal"
+			}
+			ctx.Count(fmt.Sprintf("group/requested-by-%s/ended-by-%s/companions=%d", begin, c.End, len(c.MemberMs)))
+			if out.GroupRetAt > 0 {
+				ctx.Count("group/run-context-returned")
+			}
+		}
 		if out.HaveGauge && out.Gauge != 0 {
 			ctx.SpecFail("the proxy's count of open connections always returns to zero", "", doc, h,
 				fmt.Sprintf("Run returned (drain ended by %s); 3s later the listener's gauge of active connections is still %v", c.End, out.Gauge))
@@ -437,10 +564,27 @@ func evaluate(ctx *core.Ctx, c *Case, out *outcome) {
 		}
 		if out.HaveTrack {
 			ctx.Count("runend/" + c.End + "/" + c.closeLabel())
+			if len(out.LateIDs) > 0 {
+				// accepted, not seen registered when the run context was cancelled: not what Run's success speaks about, but
+				// closed without service as soon as their handlers can (held.go)
+				ctx.Count("runend/late-sockets-at-return")
+				if why := lateVerdict(out.Late); why != "" || len(out.Late) < len(out.LateIDs) {
+					ctx.SpecFail("connections accepted in the meantime are closed without service", "", doc, h,
+						fmt.Sprintf("Run returned %v after the cancellation with socket(s) %v open that the proxy had not used when the shutdown was requested; afterwards: %s",
+							out.RetAt-out.CallAt, out.LateIDs, why))
+				}
+			}
+			if out.Held != nil {
+				held := false
+				for _, l := range out.Late {
+					held = held || l.Held
+				}
+				ctx.Count(fmt.Sprintf("runend/accept-held/open-at-the-return-of-run=%v/ended-by-%s", held, c.End))
+			}
 			if c.End == "drain" && find(out.History, "D") == nil && (len(out.OpenAt) > 0 || len(out.BusyAt) > 0) {
 				// the drain ended by itself: Run returned because its Shutdown reported success
 				ctx.SpecFail("Shutdown reports success only once every connection that was being served has been closed", "", doc, h,
-					fmt.Sprintf("Run returned %v after the cancellation, the drain having ended by itself (shutdown timeout %v); at that moment the proxy had not called Close on accepted sockets %v (order of acceptance) and its Close of %v had begun and not returned",
+					fmt.Sprintf("Run returned %v after the cancellation, the drain having ended by itself (shutdown timeout %v); at that moment the proxy had not called Close on accepted sockets %v (order of acceptance; sockets it had used — hence registered — when the shutdown was requested) and its Close of %v had begun and not returned",
 						out.RetAt-out.CallAt, timeout, out.OpenAt, out.BusyAt))
 			}
 		}
@@ -593,6 +737,8 @@ func Run(ctx *core.Ctx) {
 	for i := 0; i < n; i++ {
 		r := ctx.Rng.Sub()
 		c := gen(r)
+		// every sixth case also has a client that is not the case's at its origin (stray.go)
+		c.Stray = i%6 == 5
 		send("general", c)
 	}
 	// the shutdown-timeout matrix (matrix.go): {no limit, short, long} x {slow origin, slow reader, tunnel, mixes}
@@ -642,6 +788,12 @@ func Run(ctx *core.Ctx) {
 	// {plain, TLS} x {the teardown returns at once, takes 650-900 ms, TLS close_notify not taken}; F53 on the TLS listeners
 	for j := 0; j < ctx.N(6, 108); j++ {
 		send("ctl", genCtlCloseDuring(ctx.Rng.Sub(), j))
+	}
+	// the proxy hosted as command/run hosts it (group.go; drawn after everything that was there before): a runctx.Group
+	// with companions, the shutdown requested by ONE real signal or by cancellation, the drain ended by itself / a second
+	// signal / the timeout
+	for i := 0; i < ctx.N(12, 144); i++ {
+		send("runend", genGroup(ctx.Rng.Sub(), i))
 	}
 	for _, c := range micro {
 		send("micro", c)
@@ -700,12 +852,27 @@ func runAndEvaluate(ctx *core.Ctx, c *Case, ch *child) *child {
 		}
 	}
 	out, err, died, detail := ch.run(c)
+	if !died && err == nil && out.Inconclusive != "" {
+		// the harness could not carry out its own script (not the proxy's doing): once more, then give the case up
+		ctx.Count("retried/inconclusive")
+		out, err, died, detail = ch.run(c)
+	}
 	if died {
 		ctx.Crash("the process survives a shutdown (no crash, no deadlock)", "", caseDoc{Case: c}, detail)
 		return nil
 	}
 	if err != nil {
 		ctx.Crash("proxy starts with a valid configuration", "", caseDoc{Case: c}, err.Error())
+		return ch
+	}
+	if out.StrayOrigin > 0 {
+		ctx.CountN("stray/requests-of-somebody-else-refused-by-the-origin", out.StrayOrigin)
+	}
+	if c.Stray {
+		ctx.Count("stray/cases-with-a-foreign-client-at-the-origin")
+	}
+	if out.Inconclusive != "" {
+		ctx.Count("inconclusive/" + out.Inconclusive)
 		return ch
 	}
 	ctx.Count("result/" + c.Kind + "/" + strings.SplitN(out.Result, ":", 2)[0])
@@ -851,7 +1018,7 @@ func countPlacements(ctx *core.Ctx, c *Case, out *outcome) {
 	}
 	begin := -1
 	for i, e := range evs {
-		if e.Op == "SC" || e.Op == "X" || e.Op == "CC" {
+		if e.Op == "SC" || e.Op == "X" || e.Op == "CC" || (e.Op == "G" && c.beginOp() == "G") {
 			begin = i
 			break
 		}
